@@ -167,6 +167,7 @@ pub struct GenParams {
     pub ops: Vec<(&'static str, u32)>,
     pub quiet_pct: u32,
     pub cas_pct: u32,  // share of mutations carrying a non-zero CAS
+    pub name_is_quietpair: bool,
     pub tick_pct: u32, // share of steps that advance the clock
     pub ttls: Vec<u32>,
     pub max_val: usize,
@@ -189,6 +190,7 @@ pub fn profile(name: &str, rng: &mut SmallRng) -> GenParams {
         ops: all_ops.clone(),
         quiet_pct: 20,
         cas_pct: 25,
+        name_is_quietpair: false,
         tick_pct: 12,
         ttls: vec![0, 0, 0, 1, 2, 3, 5, 10, 60],
         max_val: 40,
@@ -255,6 +257,7 @@ pub fn profile(name: &str, rng: &mut SmallRng) -> GenParams {
             // arguments (a quiet success reveals no token), bodies around the item limit
             p.quiet_pct = 50;
             p.cas_pct = 0;
+            p.name_is_quietpair = true;
             p.oversize_pct = 12;
             p.item_limit = *[128u32, 256].choose(rng).unwrap();
             p.nkeys = rng.gen_range(2..=3);
@@ -463,6 +466,10 @@ pub fn generate(name: &str, profile_name: &str, rng: &mut SmallRng) -> History {
                 8 => CasSpec::Lit(rng.gen_range(1..20)),
                 _ => CasSpec::Lit(rng.gen()),
             }
+        } else if mutation && p.name_is_quietpair && rng.gen_range(0..100) < 30 {
+            // literal CAS values in the range the counter will reach (the same in both runs of a pair: the CAS counter does
+            // not depend on which responses are sent, so the outcomes must not either)
+            CasSpec::Lit(rng.gen_range(1..(steps.len() as u64 + 4)))
         } else {
             CasSpec::Lit(0)
         };
